@@ -24,7 +24,7 @@ ASSUMPTIONS = ["a disconnect request is only issued while a connection is up or 
                "the real socket/asyncore dispatchers are driven through 6 scripted lifecycles each over loopback TCP (peer close, local disconnect, refused connect, login failure, stream error with automatic reconnect, re-login); a bare timeout there is reported as a violation only together with the observed announcement counts"]
 REQUIRED = ["pong_race_histories", "pong_delivered_inside_ping_send", "race_sweep_histories", "tick_race_paused_mid_step", "histories", "events", "checkpoints", "ev:connected", "ev:success", "ev:failure", "ev:stream-error", "ev:tick", "ev:pong",
             "ev:connected-held", "ev:connect-request-while-up", "ev:release-handshake", "ev:socket-error", "ev:peer-close", "ev:disconnect-request", "auto_reconnects", "ping_timeouts", "pings_seen", "states_visited",
-            "real_cases", "real_ok", "real_upward_failure_cases", "real_upward_failure_ok"]
+            "real_cases", "real_ok", "real_upward_failure_cases", "real_upward_failure_ok", "stream_error_text_first"]
 TIMEOUT = {"quick": 600, "thorough": 7200}
 
 
@@ -406,7 +406,10 @@ def one_history(acc, seed, tag, forced=None):
                 if r.random() < 0.4:
                     W.trailing[A] = partial_frame(r)
                 kind = ev.split(":")[1]
-                kids = [(kind, {}, [], None)] + ([("text", {}, [], b"Replaced by new connection")] if kind == "conflict" else [])
+                kids = [(kind, {}, [], None)] + ([("text", {}, [], b"Replaced by new connection")] if (kind == "conflict" or r.random() < 0.2) else [])
+                if len(kids) > 1 and r.random() < 0.4:
+                    kids.reverse()          # (the condition and its text come in either order)
+                    acc.count("stream_error_text_first")
                 W.server.to_client(A, ("stream:error", {}, kids, None))
             elif ev == "peer-close+reconnect-up":
                 # ... and the new connection even comes up and starts its login before the loop turns
